@@ -21,9 +21,11 @@ let run_mll () =
     | [] -> ()
     | ["open"; oc] ->
         let oc = (match oc with "cgiofail" -> OCgioFail | "latefail" -> OLateFail | _ -> OSuccess) in
+        let left = (match fn_left !m oc with Some x -> n2i x | None -> -7) in   (* what is stored through fn before the outcome is known *)
         let ((m1, l1), r) = mh_step MCur !m !live (MOpen oc) in
         m := m1; live := l1;
-        (match r with Some fn -> Printf.printf "open 0 %d%s\n" (n2i fn) (tail ()) | None -> Printf.printf "open 1 0%s\n" (tail ()))
+        (match r with Some fn -> Printf.printf "open 0 %d left %d%s\n" (n2i fn) (n2i fn) (tail ())
+                    | None -> Printf.printf "open 1 0 left %d%s\n" left (tail ()))
     | ["close"; fn] ->
         let ((m1, l1), r) = mh_step MCur !m !live (MClose (i2n (max 0 (int_of_string fn)), true)) in
         m := m1; live := l1; Printf.printf "close %d%s\n" (if r <> None then 0 else 1) (tail ())
